@@ -15,7 +15,7 @@ FOCUS = {
     "C03": ["sort"],
     "C04": ["gmodify", "group_by"],
     "C05": ["left", "inner", "semi", "anti", "full"],
-    "C09": ["select", "unselect", "rename", "modify", "rbind", "cbind", "update", "colnames"],
+    "C09": ["select", "unselect", "rename", "modify", "rbind", "cbind", "update", "colnames", "gmodify", "group_by"],
 }
 TRANSFORMING = {"filter", "filter_out", "slice", "slice_off", "head", "tail", "drop_na", "unique", "sort", "select",
                 "unselect", "rename", "modify", "rbind", "cbind", "update", "left", "inner", "semi", "anti", "full", "deepcopy"}
@@ -328,10 +328,12 @@ def random_trace(rng, nsteps, focus=None):
     scenario = None
     if focus and "gmodify" in focus and len(pal.values) >= 4 and rng.random() < 0.4:
         # groups of unequal size whose sizes still add up to a multiple: 4 rows in groups of 3 + 1
-        kcells = rng.choice([[0, 0, 0, 2], [2, 0, 0, 0], [0, 2, 0, 0], [-1, -1, -1, 0] if pal.has_na else [2, 2, 0, 2]])
+        kcells = rng.choice([[0, 0, 0, 2], [2, 0, 0, 0], [0, 2, 0, 0], [0, 2, 0, 2], [2, 0, 2, 0],
+                             [-1, -1, -1, 0] if pal.has_na else [2, 2, 0, 2]])
         init[0] = {"cols": ["k", "a", "r"], "cell": {"k": kcells, "a": rand_cells(rng, 4, pal, 0.5), "r": rand_cells(rng, 4, pal, distinct=True)}}
         scenario = [{"op": "group_by", "x": 1, "cols": ["k"]},
-                    {"op": "gmodify", "x": 1, "name": rng.choice(["x", "a"]), "flen": 2, "vals": [2 * rng.randrange(2) for _ in range(3)]}]
+                    {"op": "gmodify", "x": 1, "name": rng.choice(["x", "a"]), "flen": rng.choice([1, 2, 2]),
+                     "vals": [2 * rng.randrange(2) for _ in range(3)]}]
     s = Session(pal, init)
     tr = {"palette": pal.name, "init": init, "steps": []}
     for e in (scenario or []):
